@@ -232,8 +232,10 @@ class Check:
         cov.update(self.extra_cov)
         ev = {"property_id": self.pid, "tier": self.tier, "seed": self.seed, "level": level, "coverage": cov,
               "assumptions": text_assumptions, "wall_s": round(wall, 1), "violations": len(self.violations)}
-        os.makedirs(EVID, exist_ok=True)
-        with open(os.path.join(EVID, "%s.json" % self.pid), "w") as f:
+        # only the registered tiers write the evidence file; development runs of single families keep theirs apart
+        evid = EVID if self.tier in ("quick", "thorough") else os.path.join(OUT, "evidence_dev")
+        os.makedirs(evid, exist_ok=True)
+        with open(os.path.join(evid, "%s.json" % self.pid), "w") as f:
             json.dump(ev, f, indent=1, default=lambda o: sorted(o) if isinstance(o, set) else str(o))
         if self.machinery_errors:
             for m in self.machinery_errors[:10]:
